@@ -270,6 +270,10 @@ func (m *Mast) flush(ctx context.Context) (string, error) {
 	if err != nil {
 		return "", fmt.Errorf("load root: %w", err)
 	}
+	if node.isEmpty() {
+		// a never-populated tree has an entry-less root node; like an emptied tree it has no link
+		return "", nil
+	}
 	storeQ := make(chan func() error)
 	n := 40
 	gate := make(chan interface{}, n)
